@@ -95,7 +95,7 @@ class LoGPicker(BasePickerModel):
         image: NDArray[np.float32],
         sigma: float,
     ) -> tuple[NDArray[np.float32], NDArray[np.uint16], Any]:
-        img_filt = -ndi.gaussian_laplace(image, sigma)
+        img_filt = -_zero_sum_gaussian_laplace(image, sigma)
         pos = find_maxima(img_filt, sigma, 0.0)
         return simple_pick(img_filt, pos)
 
@@ -165,6 +165,24 @@ def simple_pick(img: NDArray[np.float32], pos: NDArray[np.float32]):
 
 def _sample_score(img, pos: NDArray[np.float32]) -> NDArray[np.float32]:
     return ndi.map_coordinates(img, pos.T, order=3, mode="reflect")
+
+
+def _zero_sum_gaussian_laplace(
+    image: NDArray[np.float32], sigma: float
+) -> NDArray[np.float32]:
+    """
+    Laplacian of Gaussian that does not respond to a constant offset.
+
+    The kernel of ``ndi.gaussian_laplace`` is truncated, so its weights do not sum up
+    exactly to zero: a constant background c adds about 2.6e-4 * c / sigma**2 to every
+    score. Remove that part using the Gaussian of the same width.
+    """
+    probe = np.ones((1, 1, 1), dtype=np.float64)
+    leak = float(ndi.gaussian_laplace(probe, sigma, mode="nearest")[0, 0, 0])
+    out = ndi.gaussian_laplace(image, sigma)
+    if leak != 0.0:
+        out = out - leak * ndi.gaussian_filter(image, sigma)
+    return out
 
 
 def _differece_of_gaussian(
